@@ -27,12 +27,15 @@ pub enum Kind {
     Garbage,
     Utf8Bad,
     Xtwinops,
+    WideEdit,
 }
 
 pub struct Gen {
     pub rng: Rng,
     pub rows: u64,
     pub cols: u64,
+    /// (row, col) of some wide cells currently on the implementation's screen (0-based)
+    pub wide_at: Vec<(u64, u64)>,
 }
 
 const WIDE: &[u32] = &[0x4E00, 0x3042, 0xFF21, 0x1F600, 0xAC00, 0x4E8C];
@@ -48,7 +51,7 @@ fn push_char(out: &mut Vec<u8>, cp: u32) {
 
 impl Gen {
     pub fn new(rng: Rng, rows: u64, cols: u64) -> Self {
-        Gen { rng, rows, cols }
+        Gen { rng, rows, cols, wide_at: vec![] }
     }
 
     pub fn ascii(&mut self) -> u8 {
@@ -500,7 +503,8 @@ impl Gen {
         let mut out = vec![];
         let (rows, cols) = (self.rows, self.cols);
         out.extend_from_slice(b"\x1b[?6l\x1b[r");
-        if self.rng.chance(2, 3) {
+        if self.wide_at.is_empty() && self.rng.chance(2, 3) || !self.wide_at.is_empty() && self.rng.chance(1, 3) {
+            self.wide_at.clear();
             // fill
             out.extend_from_slice(b"\x1b[H");
             for r in 0..rows {
@@ -513,6 +517,9 @@ impl Gen {
                 while used < n {
                     if used + 2 <= n && self.rng.chance(1, 5) {
                         push_char(&mut out, *self.rng.pick(WIDE));
+                        if self.wide_at.len() < 12 {
+                            self.wide_at.push((r, used));
+                        }
                         used += 2;
                     } else {
                         out.push(self.ascii());
@@ -535,9 +542,15 @@ impl Gen {
         }
         // 1-based target row
         let cands = [1, t.saturating_sub(1).max(1), t, (t + b) / 2, b, (b + 1).min(rows), rows];
-        let row = *self.rng.pick(&cands);
+        let mut row = *self.rng.pick(&cands);
         let ccands = [1, 2.min(cols), (cols + 1) / 2, cols.saturating_sub(1).max(1), cols];
-        let col = *self.rng.pick(&ccands);
+        let mut col = *self.rng.pick(&ccands);
+        if !self.wide_at.is_empty() && self.rng.chance(1, 3) {
+            // onto / next to a wide character that is on the screen right now
+            let (wr, wc) = *self.rng.pick(&self.wide_at.clone());
+            row = wr + 1;
+            col = (wc + self.rng.below(4)).max(1).min(cols); // wc-1+1 .. wc+2+1 in 1-based terms
+        }
         out.extend_from_slice(format!("\x1b[{row};{col}H").as_bytes());
         if self.rng.chance(1, 5) {
             // pending wrap on that row
@@ -572,6 +585,55 @@ impl Gen {
         }
     }
 
+    /// self-contained scenario: a line with a wide character at a chosen column, the cursor put on
+    /// its first / second half (or next to it), then one editing operation with a small count
+    pub fn wide_edit(&mut self) -> Vec<u8> {
+        let cols = self.cols;
+        let mut out = vec![b'\r'];
+        if cols < 2 {
+            out.push(self.ascii());
+            return out;
+        }
+        if self.rng.chance(1, 3) {
+            out.extend_from_slice(b"\x1b[2K");
+        }
+        let wc = self.rng.range(0, cols - 2); // 0-based column of the wide character
+        for _ in 0..wc {
+            out.push(self.ascii());
+        }
+        push_char(&mut out, *self.rng.pick(WIDE));
+        let after = self.rng.range(0, cols - wc - 2);
+        for _ in 0..after {
+            if self.rng.chance(1, 6) && after >= 2 {
+                push_char(&mut out, *self.rng.pick(WIDE));
+            } else {
+                out.push(self.ascii());
+            }
+        }
+        // cursor: on the first half, the second half, just before, just after
+        let target = (wc + self.rng.below(4)).max(1).min(cols); // 1-based: wc, wc+1, wc+2, wc+3
+        out.extend_from_slice(format!("\x1b[{target}G").as_bytes());
+        if self.rng.chance(1, 4) {
+            out.extend_from_slice(b"\x1b[45m");
+        }
+        let n = *self.rng.pick(&[1u64, 1, 2, 2, 3, cols, cols + 1]);
+        match self.rng.below(12) {
+            0 | 1 => out.extend_from_slice(format!("\x1b[{n}@").as_bytes()),
+            2 | 3 => out.extend_from_slice(format!("\x1b[{n}P").as_bytes()),
+            4 | 5 => out.extend_from_slice(format!("\x1b[{n}X").as_bytes()),
+            6 => out.extend_from_slice(b"\x1b[K"),
+            7 => out.extend_from_slice(b"\x1b[1K"),
+            8 => out.push(self.ascii()),
+            9 => push_char(&mut out, *self.rng.pick(WIDE)),
+            10 => push_char(&mut out, *self.rng.pick(ZERO)),
+            _ => {
+                out.push(8);
+                out.push(self.ascii());
+            }
+        }
+        out
+    }
+
     pub fn chunk(&mut self, k: Kind) -> Vec<u8> {
         match k {
             Kind::Text => self.text(),
@@ -594,6 +656,7 @@ impl Gen {
             Kind::Garbage => self.garbage(),
             Kind::Utf8Bad => self.utf8_bad(),
             Kind::Xtwinops => self.xtwinops(),
+            Kind::WideEdit => self.wide_edit(),
         }
     }
 
@@ -631,6 +694,7 @@ pub const ALL_KINDS: &[(Kind, u64)] = &[
     (Kind::Garbage, 2),
     (Kind::Utf8Bad, 2),
     (Kind::Xtwinops, 1),
+    (Kind::WideEdit, 8),
 ];
 
 // ---------------------------------------------------------------- sessions
